@@ -24,6 +24,11 @@ Configurations: Fd {0,.4,5,100} x Ts {1,1e-3,3.25e-8,1e-9} with Fd*Ts <= 0.5 (14
 L {1,8} x shape {None,3,(2,3)} = 84.  quick: every history of depth <= 3 for all 84.
 thorough: depth <= 5 for shape None (28), depth <= 4 for the array shapes (56), and
 depth <= 3 with the additional event generate(1e5) for shape None (28).
+Block part (both tiers, depth <= 3): shapes {None, 3} x L {1,8} x 3 (Fd,Ts) pairs (thorough:
+all 12 with Fd > 0); events generate {1,7,500}, skip {1,1023,1024,1025,4096,4097,65537},
+one large generate {1023,1024,1025,4096,4097,5000} as first or middle event, or
+{65537,100000} as first event (shape None), followed by every small request; extra
+differentials: ONE request and 500-sample chunks from an identically seeded twin.
 
 Known on the unchanged tree (genuine defect, signature
 generate_more_samples|ValueError_time_vector_has_n+1_entries|position>=1e6):
@@ -44,7 +49,9 @@ RULE = ("per configuration (Fd, Ts, L, shape; Fd*Ts <= 0.5; seeded RandomState) 
         "generate(n)/skip(n) events up to the depth bound is executed on a fresh real object "
         "(build(hist) replays from the constructor); reference model = exact integer sample "
         "position; oracle = Jakes sum of sinusoids at t=(k+i)Ts with the phases read back after "
-        "construction + shape + one-request / one-skip differential + Fd=0 constancy + |h|<=sqrt(L). "
+        "construction + shape + one-request / one-skip differential + Fd=0 constancy + |h|<=sqrt(L); "
+        "block part: one large request (1023..100000, around plausible block sizes) as first or middle "
+        "event followed by small requests, + twin differential in ONE request and in 500-sample chunks. "
         "A case is non-trivial when it is a generate at position > 1 with Fd > 0 whose value "
         "tolerance is below 1e-3*sqrt(L); distinct = distinct (configuration, start position, n)")
 
@@ -60,6 +67,18 @@ REL_T = 1e-9          # timing tolerance relative to the position
 ABS_T = 1e-6          # timing tolerance in samples
 ABS_V = 1e-9          # absolute value tolerance
 DIFF_ONE_REQUEST_MAX = 2048
+DIFF_ONE_REQUEST_MAX_BLOCK = 2 ** 18     # block part: positions stay below 1e5 + 65537 + a few thousand
+CHUNK = 500
+
+# "block" part (all tiers): request sizes just below / at / above plausible internal block
+# sizes and large requests, as the first or middle event of depth-3 histories, so that what
+# a large request leaves behind is observed by the requests that follow it.
+BLOCK_SMALL = (("generate", 1), ("generate", 7), ("generate", 500), ("skip", 1))
+BLOCK_GEN_MEDIUM = (1023, 1024, 1025, 4096, 4097, 5000)
+BLOCK_GEN_HUGE = (65537, 100000)           # first event only, scalar generator only (cost)
+BLOCK_SKIP = (1023, 1024, 1025, 4096, 4097, 65537)
+BLOCK_FDTS = ((100.0, 1e-3), (5.0, 3.25e-8), (0.4, 1.0))
+BLOCK_SHAPES = (None, 3)
 
 
 def shape_tuple(shape):
@@ -84,6 +103,34 @@ def configs(seed, big=False):
         c["index"] = i
         c["rs_seed"] = 20250 + 1000 * seed + i
     return out
+
+
+def block_configs(seed, thorough):
+    out = []
+    pairs = [(Fd, Ts) for Ts in TS for Fd in FD if Fd * Ts <= 0.5 and Fd > 0] if thorough else BLOCK_FDTS
+    for shape in BLOCK_SHAPES:
+        for L in LS:
+            for Fd, Ts in pairs:
+                out.append(dict(Fd=Fd, Ts=Ts, L=L, shape=shape, big=False, block=True))
+    for i, c in enumerate(out):
+        c["index"] = 1000 + i
+        c["rs_seed"] = 77000 + 1000 * seed + i
+    return out
+
+
+def block_enabled(cfg, hist):
+    """at most one large generate per history, as first or middle event; after a huge one only
+    the small follow-up requests (they are what observes the damage)"""
+    big = [e for e in hist if e[0] == "generate" and e[1] >= BLOCK_GEN_MEDIUM[0]]
+    if big and big[0][1] >= BLOCK_GEN_HUGE[0]:
+        return list(BLOCK_SMALL)
+    ev = list(BLOCK_SMALL)
+    if not big and len(hist) <= 1:
+        ev += [("generate", n) for n in BLOCK_GEN_MEDIUM]
+    ev += [("skip", n) for n in BLOCK_SKIP]
+    if not big and len(hist) == 0 and cfg["shape"] is None:
+        ev += [("generate", n) for n in BLOCK_GEN_HUGE]
+    return ev
 
 
 def events(cfg):
@@ -182,7 +229,7 @@ def classify_generate_error(e, n):
 
 def case_of(cfg, hist):
     return {"Fd": cfg["Fd"], "Ts": cfg["Ts"], "L": cfg["L"], "shape": cfg["shape"],
-            "rs_seed": cfg["rs_seed"], "big": bool(cfg.get("big")),
+            "rs_seed": cfg["rs_seed"], "big": bool(cfg.get("big")), "block": bool(cfg.get("block")),
             "history": [list(h) for h in hist]}
 
 
@@ -262,7 +309,8 @@ def check_state(chk, cfg, hist, st):
             chk.fail(("generate_more_samples", "Fd=0_not_constant"), case,
                      observed=s.ravel()[:3], expected=st.s0.ravel()[:3])
     # ---- differential: identically seeded generator, stretch obtained directly ----
-    if k0 + n <= DIFF_ONE_REQUEST_MAX:
+    one_max = DIFF_ONE_REQUEST_MAX_BLOCK if cfg.get("block") else DIFF_ONE_REQUEST_MAX
+    if k0 + n <= one_max:
         f = new_generator(cfg)
         f.generate_more_samples(k0 + n - 1)          # positions 1 .. k0+n-1 in ONE request
         one = np.asarray(f.get_samples())[..., k0 - 1:]
@@ -271,7 +319,22 @@ def check_state(chk, cfg, hist, st):
             chk.fail(("generate_more_samples", "differs_from_one_request", pos_bucket(k0)), case,
                      observed=s.ravel()[:3], expected=one.ravel()[:3])
     else:
-        chk.count("excluded_one_request_differential_position_gt_%d" % DIFF_ONE_REQUEST_MAX)
+        chk.count("excluded_one_request_differential_position_gt_%d" % one_max)
+    if cfg.get("block") and k0 + n <= one_max:
+        # the same stretch from a twin that only ever issues CHUNK-sample requests
+        f = new_generator(cfg)
+        pieces, pos = [], 1
+        while pos < k0 + n:
+            m = min(CHUNK, k0 + n - pos)
+            f.generate_more_samples(m)
+            if pos + m > k0:
+                pieces.append(np.array(f.get_samples(), copy=True)[..., max(0, k0 - pos):])
+            pos += m
+        ch = np.concatenate(pieces, axis=-1)
+        chk.count("eval_differential_%d_sample_chunks" % CHUNK)
+        if ch.shape != s.shape or not np.all(np.abs(ch - s) <= tol):
+            chk.fail(("generate_more_samples", "differs_from_%d_sample_chunks" % CHUNK, pos_bucket(k0)), case,
+                     observed=s.ravel()[:3], expected=ch.ravel()[:3])
     if k0 > 1 and len(hist) > 1:
         f = new_generator(cfg)
         f.skip_samples_for_next_generation(k0 - 1)
@@ -307,7 +370,9 @@ def run_config(chk, cfg, depth):
         return build(cfg, hist)
 
     def enabled(hist, st):
-        return [] if st.err is not None else evs
+        if st.err is not None:
+            return []
+        return block_enabled(cfg, hist) if cfg.get("block") else evs
 
     def invariant(hist, st):
         with chk.guard(("jakes",), case_of(cfg, hist)):
@@ -320,14 +385,19 @@ def run_config(chk, cfg, depth):
 
     bfs.BFS(chk, b, enabled, invariant, canon, depth,
             label="cfg%d%s" % (cfg["index"], "big" if cfg.get("big") else "")).run([()])
+    if cfg.get("block"):
+        chk.count("block_part_configurations")
 
 
 def plan(chk):
     """[(cfg, depth)] - identical in every process"""
     thorough = chk.tier == "thorough"
     jobs = []
+    # expensive jobs first so that the shards are balanced
+    for c in sorted(block_configs(chk.seed, thorough),
+                    key=lambda c: -(c["L"] * (3 if c["shape"] else 4))):
+        jobs.append((c, 3))
     if thorough:
-        # the expensive request size 10^5 first so that the shards are balanced
         for c in configs(chk.seed, big=True):
             jobs.append((c, 3))
     for c in configs(chk.seed):
@@ -363,7 +433,8 @@ def main(chk: Check):
 
 def replay(case, chk: Check):
     cfg = dict(Fd=case["Fd"], Ts=case["Ts"], L=case["L"], shape=case["shape"],
-               rs_seed=case["rs_seed"], big=case.get("big", False), index=-1)
+               rs_seed=case["rs_seed"], big=case.get("big", False), block=case.get("block", False),
+               index=-1)
     if isinstance(cfg["shape"], list):
         cfg["shape"] = tuple(cfg["shape"])
     hist = tuple((h[0], int(h[1])) for h in case["history"])
